@@ -19,6 +19,17 @@ def setup(J):
                             j["save_final"] = os.path.join(ctx["scratch"], "final", j["id"])
                             j["_first"] = True
                         jobs.append(j)
+                        if size in (1, 65537) and mx == 2 * n:
+                            # producer with a streaming AND an ordinary output: its tasks are skipped on a re-run
+                            mj = copy.deepcopy(j)
+                            mj["id"] += "-mixed"
+                            mj["args"]["mixed"] = "1"
+                            if size == 1:
+                                mj["save_final"] = os.path.join(ctx["scratch"], "final", mj["id"])
+                                mj["_first"] = True
+                            else:
+                                mj.pop("save_final", None); mj.pop("_first", None)
+                            jobs.append(mj)
             return jobs
         def stage2(ctx, prev):
             jobs = []
